@@ -130,12 +130,12 @@ func (a *FakeAgent) behave(ctx context.Context, method, arg string) error {
 	a.mu.Lock()
 	mode := a.mode
 	a.mu.Unlock()
+	// record on arrival, so that a stalling host still counts as called
+	a.w.record(hostCall{fmt.Sprintf("%s#%d", a.name, a.conn), method, arg, time.Now()})
 	if mode == "stall" {
 		time.Sleep(a.w.stallFor)
-		a.w.record(hostCall{a.name, method + "-late", arg, time.Now()})
 		return nil
 	}
-	a.w.record(hostCall{fmt.Sprintf("%s#%d", a.name, a.conn), method, arg, time.Now()})
 	if mode == "err" {
 		return fmt.Errorf("host %s refuses", a.name)
 	}
@@ -485,12 +485,20 @@ func (w *world) withdraw(wallet string) error {
 	return w.pay.Withdraw(context.Background(), sig, addr, nonce)
 }
 
+func userAgentFor(kind string, full bool) ethnode.UserAgent {
+	return ethnode.UserAgent{Kind: ethnode.ParseNodeKind(kind), IsFullNode: full}
+}
+
 func (w *world) peer(name string, num int, kind string) (*pool.PeerResponse, error) {
+	return w.peerCtx(context.Background(), name, num, kind)
+}
+
+func (w *world) peerCtx(ctx context.Context, name string, num int, kind string) (*pool.PeerResponse, error) {
 	id := nodeIDOf(name)
 	req := pool.PeerRequest{Num: num, Kind: kind}
 	nonce := w.nextNonce()
 	sig := w.sign(keyFor(name), "vipnode_peer", id, nonce, req)
-	return w.pool.Peer(context.Background(), sig, id, nonce, req)
+	return w.pool.Peer(ctx, sig, id, nonce, req)
 }
 
 // ---------- observation helpers ----------
